@@ -1037,13 +1037,10 @@ func runC13(c *Ctx) {
 		line := ssa.Value(h.Params[1])
 		for _, spec := range effectTable[verb] {
 			found := 0
-			for _, cs := range CallSites(h) {
-				if !c.isTrackerCall(cs) || cs.Common().Method.Name() != spec.method {
-					continue
-				}
+			for _, dc := range c.deepTrackerCalls(h, spec.method) {
 				found++
 				nCalls++
-				args := cs.Common().Args
+				args := dc.Args
 				ok, why := len(args) == len(spec.args), fmt.Sprintf("%d arguments, want %d", len(args), len(spec.args))
 				if ok {
 					why = "arguments from the prescribed line parts"
@@ -1054,13 +1051,14 @@ func runC13(c *Ctx) {
 					}
 				}
 				if ok {
-					for _, cd := range CondsAt(cs.Block()) {
+					conds := append(append([]Cond{}, CondsAt(dc.Anchor.Block())...), dc.Inner...)
+					for _, cd := range conds {
 						if !c.allowedGuard(cd, line) {
 							ok, why = false, "reached only under an unlisted condition at "+c.InstrPos(cd.If)+" ("+cd.V.String()+")"
 						}
 					}
 				}
-				r.Add("R1", fmt.Sprintf("effect:%s:%s#%d", verb, spec.method, found), c.InstrPos(cs), c.FuncKey(h), verb+" -> "+spec.method+" with the protocol's parameter layout", ok, why)
+				r.Add("R1", fmt.Sprintf("effect:%s:%s#%d", verb, spec.method, found), c.InstrPos(dc.Site), c.FuncKey(h), verb+" -> "+spec.method+" with the protocol's parameter layout", ok, why)
 			}
 			if found == 0 {
 				r.Add("R1", fmt.Sprintf("effect:%s:%s", verb, spec.method), c.Pos(h.Pos()), c.FuncKey(h), verb+" handler calls "+spec.method, false, "no call of "+spec.method+" in the handler")
